@@ -2121,13 +2121,21 @@ class UTPM(Ring, RawAlgorithmsMixIn):
             ybar = cls(numpy.zeros((D,P) + y.shape,dtype=z.data.dtype))
 
         # operands of any rank are flattened, as in numpy.outer
+        # (an adjoint that cannot be flattened in place, e.g. a reversed view,
+        # is accumulated from a zero buffer: it may alias the other adjoint)
         xbar_data = xbar.data.reshape((D,P,-1))
         ybar_data = ybar.data.reshape((D,P,-1))
+        x_is_view = numpy.shares_memory(xbar_data, xbar.data)
+        y_is_view = numpy.shares_memory(ybar_data, ybar.data)
+        if not x_is_view:
+            xbar_data = numpy.zeros_like(xbar_data)
+        if not y_is_view:
+            ybar_data = numpy.zeros_like(ybar_data)
         cls._outer_pullback(zbar.data, x.data.reshape((D,P,-1)), y.data.reshape((D,P,-1)), z.data, out = (xbar_data, ybar_data))
-        if not numpy.shares_memory(xbar_data, xbar.data):
-            xbar.data[...] = xbar_data.reshape(xbar.data.shape)
-        if not numpy.shares_memory(ybar_data, ybar.data):
-            ybar.data[...] = ybar_data.reshape(ybar.data.shape)
+        if not x_is_view:
+            xbar.data[...] += xbar_data.reshape(xbar.data.shape)
+        if not y_is_view:
+            ybar.data[...] += ybar_data.reshape(ybar.data.shape)
         return (xbar,ybar)
 
 
